@@ -482,7 +482,25 @@ def check_C17(chk):
                         'input_filename/-f and colour options are not modelled yet; -j without -r on strings is left open (the manual does not say whether they are written raw)']
 
 
-CHECKS = {'C17': check_C17, 'C18': check_C18, 'C15': check_C15, 'C09': check_C09, 'C08': check_C08, 'C11': check_C11, 'C10': check_C10, 'C01': check_C01, 'C02': check_C02, 'C03': check_C03}
+def check_C12(chk):
+    q = chk.tier == 'quick'
+    chk.rule = ('coll: 25 inputs (arrays with duplicates, ties, equal numbers in different representations, mixed types, nested arrays, arrays of objects '
+                'with equal keys in different order, strings; objects empty, with non-string keys false/null/1, nested; numbers) x 90 operations (sort, '
+                'sort_by/group_by/unique_by/min_by/max_by/map/map_values x 9 key filters with 0,1,2 outputs, unique, min, max, keys, to_entries|from_entries, '
+                'with_entries(.), flatten/0,1, transpose, combinations, add, any, all, walk, del, delpaths, paths(p), pick, join, split, has, in, select, type and is*/'
+                'selection filters, abs, floor/round/ceil, explode, ascii case, the equations keys == keys_unsorted|sort and sort_by(f) == sort_by([f])); coll2: the same '
+                'inputs x 16 needles x contains/inside/indices/index/rindex/has/in/startswith/endswith/ltrimstr/rtrimstr/bsearch/split/join. Expected results '
+                'come from the constructive definitions in JaqSem/JaqLib (stable insertion sort, maximal runs, first of run, extremal elements as a set of '
+                'admissible answers); every state is replayed on the real code.')
+    run_suite(chk, 'coll', 'MC_Vals', vals_cfg('coll', 2, ('WellFormed',)))
+    run_suite(chk, 'coll2', 'MC_Vals', vals_cfg('coll2', 2, ('WellFormed',)))
+    run_suite(chk, 'order-long', 'MC_Vals', vals_cfg('order-long', 2, ('WellFormed', 'NoUnsup')))
+    chk.extra['exhaustive'] = True
+    chk.assumptions += ['regular-expression filters (splits, test, sub, ...) are outside the specification (third-party engine)',
+                        'tonumber/toboolean and float rounding beyond exactly representable values are not covered']
+
+
+CHECKS = {'C12': check_C12, 'C17': check_C17, 'C18': check_C18, 'C15': check_C15, 'C09': check_C09, 'C08': check_C08, 'C11': check_C11, 'C10': check_C10, 'C01': check_C01, 'C02': check_C02, 'C03': check_C03}
 
 
 def main():
